@@ -88,6 +88,12 @@ def records(ctx):
     recs = []
     for m in special_cases(rng):
         recs.append(rec_build(m))
+    for i in range(ctx.pick(2500, 30000)):      # two or three distinct options, long runs: periodic patterns in run and array
+        pool = [hdr.SOMEIPSDLoadBalancingOption(1, 1), hdr.IPv4EndpointOption(__import__("ipaddress").IPv4Address("192.0.2.1"), hdr.L4Protocols.UDP, 1),
+                hdr.SOMEIPSDLoadBalancingOption(2, 2)][: rng.choice([2, 2, 3])]
+        es = [hdr.SOMEIPSDEntry(options_1=tuple(rng.choices(pool, k=rng.randint(0, 12))), options_2=tuple(rng.choices(pool, k=rng.randint(0, 9))),
+                                **codec.rand_entry_fields(rng)) for _ in range(rng.randint(2, 8))]
+        recs.append(rec_build(hdr.SOMEIPSDHeader(entries=tuple(es))))
     for i in range(ctx.pick(1500, 30000)):
         m = codec.rand_sd(rng, max_entries=rng.choice([1, 2, 4, 8]), run_max=rng.choice([2, 4, 15, 17]))
         recs.append(rec_build(m))
